@@ -34,7 +34,21 @@ S1 == [type |-> "object", required |-> <<"n", "ro">>] @@ Props     \* n and the 
 S2 == [type |-> "object", required |-> <<"ro">>] @@ Props          \* nothing the client may send is required
 TextSchema == [type |-> "string", minLength |-> 2]
 
-SchemaOf(c) == IF c.family = "text" THEN TextSchema ELSE IF c.schema = "S1" THEN S1 ELSE IF c.schema = "S3" THEN S3 ELSE S2
+(* S4 / S4a: object-level oneOf / anyOf whose alternatives give the SAME property different primitive types: *)
+(* a field is typed by the alternative the whole body satisfies                                              *)
+AltName == [type |-> "object", required |-> <<"by", "ref">>, pk |-> <<"by", "ref">>,
+            ps |-> <<[type |-> "string", enum |-> <<Str(<<"n", "a", "m", "e">>)>>], TStr>>]
+AltId   == [type |-> "object", required |-> <<"by", "ref">>, pk |-> <<"by", "ref">>,
+            ps |-> <<[type |-> "string", enum |-> <<Str(<<"i", "d">>)>>], TInt>>]
+S4  == [type |-> "object", oneOf |-> <<AltId, AltName>>]
+S4a == [type |-> "object", anyOf |-> <<AltId, AltName>>]
+(* S5: the string property is required (an empty string is a string); S6: it must not be empty *)
+S5 == [type |-> "object", required |-> <<"s">>] @@ Props
+S6 == [type |-> "object", pk |-> <<"n", "s">>, ps |-> <<TInt, [type |-> "string", minLength |-> 1]>>]
+
+SchemaOf(c) == IF c.family = "text" THEN TextSchema
+               ELSE CASE c.schema = "S1" -> S1 [] c.schema = "S3" -> S3 [] c.schema = "S4" -> S4 [] c.schema = "S4a" -> S4a
+                      [] c.schema = "S5" -> S5 [] c.schema = "S6" -> S6 [] OTHER -> S2
 
 DecodeAccepts(c) == Valid(SchemaOf(c), c.v, IF c.excludeRO THEN "asreq_noro" ELSE "asreq")
 
